@@ -23,8 +23,6 @@ import re
 import ast
 import sys
 import zlib
-import atexit
-import shutil
 import struct
 import difflib
 import inspect
@@ -318,15 +316,12 @@ def run_gnu(path, option):
     return r.returncode, r.stdout.decode('latin-1')
 
 
-_TMP = {}
-
-
-def tmp_path():
-    if 'd' not in _TMP or _TMP.get('pid') != os.getpid():
-        d = tempfile.mkdtemp(prefix='vf_c18_')
-        _TMP['d'], _TMP['pid'] = d, os.getpid()
-        atexit.register(shutil.rmtree, d, True)
-    return os.path.join(_TMP['d'], 'synth.bin')
+def write_tmp(data):
+    """The synthesized file as a named file for the readelf subprocess; the caller unlinks it."""
+    fd, path = tempfile.mkstemp(prefix='vf_c18_', suffix='.elf')
+    with os.fdopen(fd, 'wb') as f:
+        f.write(data)
+    return path
 
 
 # ---------------------------------------------------------------------------
@@ -687,9 +682,7 @@ def run_case(ctx, case):
         what = mark = None
     else:
         data, _R = W.build(case['model'])
-        path = tmp_path()
-        with open(path, 'wb') as f:
-            f.write(data)
+        path = None         # written below, only when the pair is going to be decided
         ctx.count('kind.%s' % kind)
         what, mark = case.get('what'), case.get('mark')
         tag = '%s[%s]' % (kind, what or '')
@@ -704,21 +697,31 @@ def run_case(ctx, case):
         ctx.case(core.dumps(case), False)
         return
     key = core.digest(data, opt)
-    rc, gnu_out = run_gnu(path, opt)
-    if rc != 0:
-        ctx.count('oracle.rc_nonzero')
-        ctx.count('oracle.rc_nonzero|%s' % optkey(opt))
-        ctx.case(key, False)
-        return
+    tmp = None
+    if path is None:
+        path = tmp = write_tmp(data)
     try:
-        clone_out = run_clone(path, opt)
-    except core.HarnessError:
-        raise
-    except Exception as e:  # what main() would turn into "ELF error" + exit 1, or a traceback
-        ctx.count('clone.exception')
-        ctx.fail_exc('clone.exception|%s' % optkey(opt), e, case, extra=tag)
-        ctx.case(key, False)
-        return
+        rc, gnu_out = run_gnu(path, opt)
+        if rc != 0:
+            ctx.count('oracle.rc_nonzero')
+            ctx.count('oracle.rc_nonzero|%s' % optkey(opt))
+            ctx.case(key, False)
+            return
+        try:
+            clone_out = run_clone(path, opt)
+        except core.HarnessError:
+            raise
+        except Exception as e:  # what main() would turn into "ELF error" + exit 1, or a traceback
+            ctx.count('clone.exception')
+            ctx.fail_exc('clone.exception|%s' % optkey(opt), e, case, extra=tag)
+            ctx.case(key, False)
+            return
+    finally:
+        if tmp is not None:
+            try:
+                os.unlink(tmp)
+            except OSError:
+                pass
     ctx.count('opt.%s' % optkey(opt))
     n = compare(ctx, case, opt, gnu_out, clone_out, what=what, mark=mark, tag=tag, info=info)
     if n >= 3:
@@ -951,8 +954,8 @@ def section_cases():
             for cls in classes:
                 le = (n % 3 != 2) if mname in ('EM_ARM', 'EM_MIPS') else True
                 n += 1
-                out.append(synth('-S', 'sh_type|m=%s|c=%d|%s(0x%x)' % (mname, cls, name, code), r'\.c18t',
-                                 section_file(cls, le, m, mname, code, 0)))
+                what = 'sh_type|m=%s|%s(0x%x)' % (mname, name, code) if code >= 0x70000000 else 'sh_type|%s(0x%x)' % (name, code)
+                out.append(synth('-S', what, r'\.c18t', section_file(cls, le, m, mname, code, 0)))
     # unnamed codes next to the named ranges: the fall-through texts of describe_sh_type
     for mname, m, cls in (('EM_X86_64', EM['X86_64'], 64), ('EM_ARM', EM['ARM'], 32)):
         for code in (12, 13, 20, 0x5fffffff, 0x60000001, 0x6fffff00, 0x6ffffff4, 0x6ffffff8, 0x6ffffffb, 0x70000000,
@@ -1025,7 +1028,7 @@ def segment_cases():
                 continue
             le = (n % 3 != 2) if mname in ('EM_ARM', 'EM_MIPS') else True
             n += 1
-            what = 'p_type|m=%s|c=%d|%s(0x%x)' % (mname, cls, name, code)
+            what = 'p_type|m=%s|%s(0x%x)' % (mname, name, code)
             if name.startswith('unnamed'):
                 what = 'p_type|%s' % name
             elif code < 0x70000000:
@@ -1116,8 +1119,13 @@ def symbol_cases():
         out.append(synth('-s', 'st_section_sym|c=%d|le=%d' % (cls, le), r'^\s*1:',
                          symbol_file(cls, le, m, 0x03, 0, 1, value=0, size=0, name='')))
         out.append(synth('-s', 'dynsym|c=%d|le=%d' % (cls, le), r'c18sym', symbol_file(cls, le, m, 0x12, 0, 1, dyn=True)))
-    for nm in ('c18sym_with_a_name_of_more_than_25_characters', 'c18sym_exactly_25_chars__', 'c18sym\x01\x1f', 'c18sym@plt'):
-        out.append(synth('-s', 'st_name|len=%d' % len(nm), r'c18sym', symbol_file(64, True, EM['X86_64'], 0x12, 0, 1, name=nm)))
+    # GNU readelf 2.40 prints names of up to 21 characters in full and longer ones as 16 characters + "[...]" (the project's
+    # comparison then only looks at what precedes the dots): the boundary lengths, in both classes
+    for nm in ('c18sym_with_a_name_of_more_than_25_characters', 'c18sym_exactly_25_chars__', 'c18sym\x01\x1f', 'c18sym@plt',
+               'c18sym_twenty_one_chr', 'c18sym_twenty_two_chrs', 'c18sym_twenty_chars_'):
+        for cls in (64, 32):
+            out.append(synth('-s', 'st_name|len=%d' % len(nm), r'c18sym',
+                             symbol_file(cls, True, EM['X86_64'] if cls == 64 else EM['I386'], 0x12, 0, 1, name=nm)))
     return out
 
 
@@ -1897,13 +1905,15 @@ def floors(ctx):
     if not have_readelf() or c.get('oracle.absent'):
         out.append('deciding oracle %s is absent: nothing decided' % READELF)
         return out
-    for k in ('kind.corpus', 'kind.synth', 'kind.random', 'nontrivial.corpus', 'nontrivial.synth', 'nontrivial.random',
-              'pairs.equal_whole', 'lines.compared'):
+    need = ['kind.corpus', 'kind.synth', 'nontrivial.corpus', 'nontrivial.synth', 'pairs.equal_whole', 'lines.compared']
+    if c.get('random_cases'):
+        need += ['kind.random', 'nontrivial.random']
+    for k in need:
         if not c.get(k):
             out.append('counter %s is 0' % k)
     for t in ('e_machine', 'ei_osabi', 'e_type', 'e_flags', 'sh_type', 'sh_flags', 'p_type', 'p_flags', 'st_type', 'st_bind',
               'st_visibility', 'st_shndx', 'd_tag', 'dt_flags', 'dt_flags_1', 'note_abi_tag_os', 'note_type', 'gnu_property',
-              'reloc', 'ver_flags'):
+              'reloc', 'ver_flags', 'dw_tag', 'dw_at', 'dw_form', 'dw_lang', 'dw_ate', 'dw_op', 'dw_reg', 'dw_cfa', 'dump'):
         if not c.get('table.%s' % t):
             out.append('no synthesized file for table %s' % t)
     opts = [o for o in proj()['options'] if not o.startswith('-x') and not o.startswith('-p')] + ['-x', '-p'] + EXTRA_OPTIONS
